@@ -3,6 +3,8 @@ import Ptk.Gen.C20
 import Ptk.Model.C20
 import Ptk.Model.C20Chain
 import Ptk.Model.C20Lock
+import Ptk.Model.C20Nest
+import Ptk.Model.C20Patch
 open Ptk Ptk.Py Ptk.Proto Ptk.C20
 
 /-! Line-protocol driver for the C20 models.
@@ -66,6 +68,87 @@ structure DSt where
   s : St := {}
   c : C20Chain.St := {}
   l : C20Lock.St := {}
+  n : C20Nest.St := {}
+  pp : C20Patch.St := {}
+
+/-! nested applications: ninit | nstart | nstop | nenter | nleave | nw <str>
+    reply: `<events> | cell=<k|N> stack=<outermost first: id, 's' when its section is open>` -/
+namespace NestDrv
+open C20Nest
+
+def encEv : C20Nest.Ev → String
+  | .draw k => s!"D{k}"
+  | .erase k => s!"E{k}"
+  | .doneDraw k => s!"X{k}"
+  | .out t => s!"O0:{encStr t}"
+
+def reply (old new : C20Nest.St) : String :=
+  let evs := new.log.drop old.log.length
+  let cell := match new.cell with | none => "N" | some k => toString k
+  let st := ",".intercalate (new.stack.reverse.map fun f => s!"{f.id}{if f.inSec then "s" else ""}")
+  " ".intercalate (evs.map encEv) ++ s!" | cell={cell} stack={st}"
+
+def stepLine (s : C20Nest.St) : List String → Option (C20Nest.St × String)
+  | ["ninit"] => let n : C20Nest.St := {}; some (n, reply n n)
+  | ["nstart"] => let s' := C20Nest.step s .start; some (s', reply s s')
+  | ["nstop"] => let s' := C20Nest.step s .stop; some (s', reply s s')
+  | ["nenter"] => let s' := C20Nest.step s .enter; some (s', reply s s')
+  | ["nleave"] => let s' := C20Nest.step s .leave; some (s', reply s s')
+  | ["nw", d] => do
+    let d ← decStr d
+    let s' := C20Nest.step s (.write d)
+    pure (s', reply s s')
+  | _ => none
+end NestDrv
+
+/-! patch_stdout(): pinit <raw> | pw <t> <str> | pf <t> | pemit | pexit
+    The flush thread is held only inside `Output.flush()` (op `pemit` lets one emission through); otherwise it runs
+    by itself: after every op it takes what is queued (`grab`), and `join()` returns as soon as it has ended. -/
+namespace PatchDrv
+open C20Patch
+
+def encPc : Pc → String
+  | .inside => "inside"
+  | .joining => "joining"
+  | .done => "done"
+
+def settleP (s : C20Patch.St) : C20Patch.St :=
+  let s1 := { s with p := grab (3 * s.p.queue.length + 4) s.p }
+  C20Patch.step s1 .joined
+
+def encP (s : C20Patch.St) : String :=
+  let fl := match s.p.fl with
+    | .idle => "idle"
+    | .exited => "exited"
+    | .ready _ t _ => s!"held:{encStr t}"
+    | _ => "?"
+  s!"bound={encBool s.bound} pc={encPc s.pc} orig={encStr s.orig} buf={encStr (cat s.p.buffer)} q={encList encItem s.p.queue} fl={fl}"
+
+def reply (old new : C20Patch.St) : String :=
+  let evs := new.p.log.drop old.p.log.length
+  " ".intercalate (evs.map encEv) ++ " | " ++ encP new
+
+def stepLine (s : C20Patch.St) : List String → Option (C20Patch.St × String)
+  | ["pinit", r] => do
+    let r ← decBool r
+    let n := C20Patch.init r
+    pure (n, reply n n)
+  | ["pw", t, d] => do
+    let s' := settleP (C20Patch.step s (.write (← decNat t) (← decStr d)))
+    pure (s', reply s s')
+  | ["pf", t] => do
+    let s' := settleP (C20Patch.step s (.flush (← decNat t)))
+    pure (s', reply s s')
+  | ["pemit"] =>
+    -- the emission that was held inside `Output.flush()` goes through
+    let s1 := match s.p.fl with
+      | .ready _ _ _ => C20Patch.step s .fl
+      | _ => s
+    let s' := settleP s1
+    some (s', reply s s')
+  | ["pexit"] => let s' := settleP (C20Patch.step s .leave); some (s', reply s s')
+  | _ => none
+end PatchDrv
 
 /-! lock model glue: threads 0..3 -/
 namespace LockDrv
@@ -155,6 +238,14 @@ def stepLine (d : DSt) (toks : List String) : DSt × String :=
   | "linit" :: _ | "lcall" :: _ | "lbody" :: _ | "lrel" :: _ | "lfl" :: _ =>
     match LockDrv.stepLine d.l toks with
     | some (l', r) => ({ d with l := l' }, r)
+    | none => (d, "bad-op")
+  | "ninit" :: _ | "nstart" :: _ | "nstop" :: _ | "nenter" :: _ | "nleave" :: _ | "nw" :: _ =>
+    match NestDrv.stepLine d.n toks with
+    | some (n', r) => ({ d with n := n' }, r)
+    | none => (d, "bad-op")
+  | "pinit" :: _ | "pw" :: _ | "pf" :: _ | "pemit" :: _ | "pexit" :: _ =>
+    match PatchDrv.stepLine d.pp toks with
+    | some (p', r) => ({ d with pp := p' }, r)
     | none => (d, "bad-op")
   | "cinit" :: _ | "center" :: _ | "cstep" :: _ | "cstop" :: _ | "cstart" :: _ | "cinval" :: _ | "cexit" :: _ =>
     match C20Chain.stepLine d.c toks with
